@@ -12,7 +12,7 @@ import json
 import os
 import string
 
-from .. import core, starutil as su
+from .. import core, motlutil, starutil as su
 
 READ_INVS = ["C02_GrammarUnambiguous", "C02_WriterReadable", "C02_ColumnTypes"]
 
@@ -315,7 +315,8 @@ def build_frames(case):
                 data[lab] = pd.Series(col, dtype="float64")
             else:
                 data[lab] = pd.Series(col, dtype=object) if case["variant"] % 2 == 0 else pd.Series(col, dtype="str")
-        frames.append(pd.DataFrame(data, columns=t["labels"]))
+        # a table handed to the writer may carry any row labels (sorted / sampled / filtered frames); rows are positional
+        frames.append(motlutil.vary_index(pd.DataFrame(data, columns=t["labels"]), case["variant"] + len(frames)))
     return frames
 
 
